@@ -64,14 +64,38 @@ for mod in mods:
                 if inst is not None and hasattr(inst, "functions"):
                     for o, f in inst.functions.items():
                         fn = getattr(f, "__func__", f)
-                        table[str(o)] = "%s.%s" % (getattr(fn, "__module__", "?"), getattr(fn, "__qualname__", repr(fn)))
+                        qn = "%s.%s" % (getattr(fn, "__module__", "?"), getattr(fn, "__qualname__", repr(fn)))
+                        if "<locals>" in qn:
+                            # decorated method: name it by the class attribute that holds it
+                            for c in v.__mro__:
+                                hit = [a for a, x in vars(c).items() if x is fn]
+                                if hit:
+                                    qn = "%s.%s.%s" % (c.__module__, c.__qualname__, sorted(hit)[0])
+                                    break
+                        table[str(o)] = qn
                 else:
                     import pysmt.operators as ops
                     from pysmt.walkers.generic import nt_to_fun
                     for o in ops.all_types():
                         f = getattr(v, nt_to_fun(o), None)
                         if f is not None:
-                            table[str(o)] = "%s.%s" % (f.__module__, f.__qualname__)
+                            qn = "%s.%s" % (f.__module__, f.__qualname__)
+                            if "<locals>" in qn:
+                                for c in v.__mro__:
+                                    hit = [a for a, x in vars(c).items() if x is f and not a.startswith("walk_") is False]
+                                    hit = [a for a, x in vars(c).items() if x is f]
+                                    if hit:
+                                        # prefer the name the method was defined under (the one in the source)
+                                        import ast as _ast, inspect as _inspect
+                                        try:
+                                            src = _ast.parse(_inspect.getsource(c).lstrip() if False else __import__("textwrap").dedent(_inspect.getsource(c)))
+                                            defined = {n.name for n in src.body[0].body if isinstance(n, _ast.FunctionDef)}
+                                        except Exception:
+                                            defined = set()
+                                        best = sorted([a for a in hit if a in defined]) or sorted(hit)
+                                        qn = "%s.%s.%s" % (c.__module__, c.__qualname__, best[0])
+                                        break
+                            table[str(o)] = qn
                 out["dispatch"][q] = table
     out["consts"][mod.__name__] = consts
 
